@@ -146,11 +146,23 @@ def load_many(lit: LineIterator) -> Iterator[dict]:
     """Do not edit this docstring. It will be overwritten."""
     # MOL2 files with more molecules are a simple concatenation of individual MOL2 files,'
     # making it trivial to load many frames.
-    try:
-        while True:
-            yield load_one(lit)
-    except (StopIteration, LoadError):
-        return
+    while True:
+        # Look ahead for the next frame: the file ends when no more molecules follow.
+        # Errors while loading a frame are not taken for the end of the file.
+        skipped = []
+        found = False
+        try:
+            while not found:
+                line = next(lit)
+                skipped.append(line)
+                found = line.startswith("@<TRIPOS>MOLECULE")
+        except StopIteration:
+            pass
+        for line in reversed(skipped):
+            lit.back(line)
+        if not found:
+            return
+        yield load_one(lit)
 
 
 @document_dump_one("MOL2", ["atcoords", "atnums"], ["atcharges", "atffparams", "title"])
